@@ -22,6 +22,20 @@
 //!                                     NV.Bgzf.WriterTell.wtell_run (C01's writer model + sink_file +
 //!                                     the reader model); <tbl> = `isize:digest:cdata_len` per data
 //!                                     frame of the real output = the DEFLATE size oracle of the model
+//!   hrs  <filehex> <ops>              a fresh Reader over damaged / nested bytes, `r<n>` reads and
+//!                                     `k<c>:<u>` seeks that go on after errors, failed seeks and seeks
+//!                                     onto bytes that merely parse as a frame; obs = per call
+//!                                     `<count|position sought|Err>@<position told>`; model = SeekBytes.hrs_run
+//!   wfs  <level> <finish> <ops> <n> <faults> <tbl>  writer history (ops as wtm plus `t` = try_finish)
+//!                                     over nv::adversary::FaultySink with the fault script <faults>
+//!                                     (`F` full, `S<k>` short, `I` interrupted, `E<code>` failure of
+//!                                     kind FAULT_KINDS[code], one event per inner write call); the
+//!                                     calls go on after an Err.  obs = per call
+//!                                     `<result>@<position told>#<inner.len()>`, then
+//!                                     `|<ending> <position()> <inner.len()>|`, then - when the ending
+//!                                     returned Ok and the file splits into frames - per told position
+//!                                     the wtm row (`?>?` when it lies inside a frame); model =
+//!                                     NV.Bgzf.WriterTellSink.fwtell_run over C14's NV.Sinks.Sink
 //! Implementation-only oracles (obs `-`):
 //!   hist mt ...                       the same histories over MultithreadedReader
 //!   wtell <level> <finish> <ops>      Writer::virtual_position() sampled between write/flush
@@ -1172,8 +1186,379 @@ fn run_hread(c: &Case) -> Obs {
     Obs::ok(o, bytes.len() > 28 && ns.len() >= 2).with_verdict(verdict)
 }
 
+
+/// A fresh Reader over arbitrary (damaged / nested) bytes and a history of `read` (buffers of
+/// fewer than 65536 bytes) and `seek` calls that goes on after errors, after failed seeks and after
+/// seeks onto bytes inside a frame that parse as a frame: obs = per call
+/// `<count | position sought | Err>@<position told>`, compared with NV.Bgzf.SeekBytes.hrs_run.
+/// Property side: no panic; a failing call never moves the told position backwards unless it is a
+/// seek (a failed seek leaves the previous block).
+fn run_hrs(c: &Case) -> Obs {
+    let bytes = nv::unhex(&c.args[0]);
+    let ops: Vec<&str> = if c.args[1] == "_" { vec![] } else { c.args[1].split(',').collect() };
+    let mut r = bgzf::io::Reader::new(Cursor::new(bytes.clone()));
+    let mut obs = Vec::new();
+    let mut verdict = Ok(());
+    let mut nseek = 0;
+    for (j, op) in ops.iter().enumerate() {
+        let before = u64::from(r.virtual_position());
+        let is_seek = op.starts_with('k');
+        let g = if is_seek {
+            nseek += 1;
+            let (tc, tu) = op[1..].split_once(':').unwrap();
+            let (tc, tu): (u64, u16) = (tc.parse().unwrap(), tu.parse().unwrap());
+            match VP::try_from((tc, tu)) {
+                Err(_) => "Err:InvalidInput".to_string(),
+                Ok(v) => match guarded(AssertUnwindSafe(|| r.seek(v))) {
+                    Outcome::Done(Ok(x)) => u64::from(x).to_string(),
+                    Outcome::Done(Err(e)) => format!("Err:{}", errkind(&e)),
+                    Outcome::Panicked(_) => "Panic".into(),
+                },
+            }
+        } else {
+            let n: usize = op[1..].parse().unwrap();
+            let mut buf = vec![SENTINEL; n];
+            match guarded(AssertUnwindSafe(|| Read::read(&mut r, &mut buf))) {
+                Outcome::Done(Ok(k)) => k.to_string(),
+                Outcome::Done(Err(e)) => format!("Err:{}", errkind(&e)),
+                Outcome::Panicked(_) => "Panic".into(),
+            }
+        };
+        let vp = match guarded(AssertUnwindSafe(|| r.virtual_position())) {
+            Outcome::Done(v) => Some(v),
+            Outcome::Panicked(_) => None,
+        };
+        obs.push(format!("{g}@{}", vp.map_or("Panic".to_string(), |v| format!("{}:{}", v.compressed(), v.uncompressed()))));
+        if g == "Panic" || vp.is_none() {
+            verdict = Err(("damaged-file-history-panic".to_string(), format!("op#{j} {op}")));
+            break;
+        }
+        if let (true, false, Some(v)) = (g.starts_with("Err"), is_seek, vp) {
+            if u64::from(v) < before && verdict.is_ok() {
+                verdict = Err((
+                    "failed-block-stays-current".to_string(),
+                    format!("op#{j} {op} failed and the told position went from {before} back to {}", u64::from(v)),
+                ));
+            }
+        }
+    }
+    let o = if obs.is_empty() { "_".to_string() } else { obs.join(" ") };
+    Obs::ok(o, bytes.len() > 28 && ops.len() >= 3 && nseek >= 1).with_verdict(verdict)
+}
+
+
+// -------------------------------------------------------------------------------------------
+// writer over a FAILING destination (kind wfs, modelled: NV.Bgzf.WriterTellSink.fwtell_run)
+
+const FAULT_KINDS: [io::ErrorKind; 8] = [
+    io::ErrorKind::Interrupted,
+    io::ErrorKind::WriteZero,
+    io::ErrorKind::InvalidInput,
+    io::ErrorKind::Other,
+    io::ErrorKind::BrokenPipe,
+    io::ErrorKind::WouldBlock,
+    io::ErrorKind::TimedOut,
+    io::ErrorKind::PermissionDenied,
+];
+
+fn parse_faults(s: &str) -> Vec<nv::adversary::Fault> {
+    use nv::adversary::Fault;
+    s.split(',')
+        .filter(|p| *p != "_" && !p.is_empty())
+        .map(|p| match p.as_bytes()[0] {
+            b'F' => Fault::Full,
+            b'S' => Fault::Short(p[1..].parse().unwrap()),
+            b'I' => Fault::Interrupted,
+            b'E' => Fault::Fail(FAULT_KINDS[p[1..].parse::<usize>().unwrap()]),
+            _ => panic!("fault event"),
+        })
+        .collect()
+}
+
+/// what the inner writer is asked to write, piece by piece (one piece = one write_all of
+/// writer/frame.rs): used ONLY to pick up the compressed data of every frame the writer tries to
+/// emit (12th piece), i.e. the DEFLATE size oracle of the model
+#[derive(Default)]
+struct Tap {
+    pending: usize,
+    piece: usize,
+    in_eof: bool,
+    cdatas: Vec<Vec<u8>>,
+}
+
+struct TapSink {
+    inner: nv::adversary::FaultySink,
+    tap: std::sync::Arc<std::sync::Mutex<Tap>>,
+}
+
+impl Write for TapSink {
+    fn write(&mut self, buf: &[u8]) -> io::Result<usize> {
+        let mut t = self.tap.lock().unwrap();
+        let fresh = t.pending == 0;
+        if fresh {
+            if t.piece == 0 {
+                t.in_eof = buf.len() == 28;
+            }
+            if !t.in_eof && t.piece == 11 && t.cdatas.last().map(|c| c.as_slice()) != Some(buf) {
+                t.cdatas.push(buf.to_vec());
+            }
+        }
+        let r = self.inner.write(buf);
+        match &r {
+            Ok(n) => {
+                t.pending = if fresh { buf.len() - n } else { t.pending - n };
+                if t.pending == 0 {
+                    t.piece = if t.in_eof || t.piece == 13 { 0 } else { t.piece + 1 };
+                }
+            }
+            Err(e) if e.kind() == io::ErrorKind::Interrupted => {}
+            Err(_) => {
+                t.pending = 0;
+                t.piece = 0;
+            }
+        }
+        r
+    }
+    fn flush(&mut self) -> io::Result<()> {
+        self.inner.flush()
+    }
+}
+
+struct FsRun {
+    calls: Vec<(String, String, usize)>, // result, position told after the call, inner.len() after it
+    failed_tf_before: Vec<bool>,         // per told position: a try_finish call failed earlier
+    told: Vec<Option<VP>>,
+    end: String,
+    pos: u64,
+    bytes: Vec<u8>,
+    table: Vec<(usize, u64, usize)>,
+    panicked: bool,
+}
+
+fn inflate_raw(c: &[u8]) -> Vec<u8> {
+    let mut d = Vec::new();
+    let _ = flate2::read::DeflateDecoder::new(c).read_to_end(&mut d);
+    d
+}
+
+fn faulty_script(level: u8, finish: &str, script: &str, faults: &str) -> FsRun {
+    let sink = nv::adversary::FaultySink::new(parse_faults(faults));
+    let tap = std::sync::Arc::new(std::sync::Mutex::new(Tap::default()));
+    let lvl = bgzf::io::writer::CompressionLevel::new(level).unwrap();
+    let mut w = bgzf::io::writer::Builder::default()
+        .set_compression_level(lvl)
+        .build_from_writer(TapSink { inner: sink.clone(), tap: tap.clone() });
+    let tell = |w: &bgzf::io::Writer<TapSink>| match guarded(AssertUnwindSafe(|| w.virtual_position())) {
+        Outcome::Done(v) => Some(v),
+        Outcome::Panicked(_) => None,
+    };
+    let show_vp = |v: Option<VP>| v.map_or("Panic".to_string(), |v| format!("{}:{}", v.compressed(), v.uncompressed()));
+    let mut run = FsRun {
+        calls: Vec::new(),
+        failed_tf_before: vec![false],
+        told: vec![tell(&w)],
+        end: String::new(),
+        pos: 0,
+        bytes: Vec::new(),
+        table: Vec::new(),
+        panicked: false,
+    };
+    let mut failed_tf = false;
+    for p in script.split(',').filter(|p| *p != "_") {
+        let res: Outcome<io::Result<Option<usize>>> = if p == "f" {
+            guarded(AssertUnwindSafe(|| w.flush().map(|_| None)))
+        } else if p == "t" {
+            guarded(AssertUnwindSafe(|| w.try_finish().map(|_| None)))
+        } else {
+            let q: Vec<u64> = p[1..].split(':').map(|x| x.parse().unwrap()).collect();
+            let data = pattern(q[0] as usize, q[1], q[2]);
+            if p.starts_with('W') {
+                guarded(AssertUnwindSafe(|| w.write_all(&data).map(|_| None)))
+            } else {
+                guarded(AssertUnwindSafe(|| w.write(&data).map(Some)))
+            }
+        };
+        let r = match res {
+            Outcome::Done(Ok(Some(a))) => format!("Ok:{a}"),
+            Outcome::Done(Ok(None)) => "Ok".to_string(),
+            Outcome::Done(Err(e)) => {
+                if p == "t" {
+                    failed_tf = true;
+                }
+                format!("Err:{}", errkind(&e))
+            }
+            Outcome::Panicked(_) => {
+                run.panicked = true;
+                "Panic".to_string()
+            }
+        };
+        if run.panicked {
+            run.calls.push((r, "Panic".into(), sink.bytes().len()));
+            break;
+        }
+        let v = tell(&w);
+        run.calls.push((r, show_vp(v), sink.bytes().len()));
+        run.told.push(v);
+        run.failed_tf_before.push(failed_tf);
+    }
+    if run.panicked {
+        run.end = "Panic".into();
+        run.pos = w.position();
+        std::mem::forget(w);
+    } else if finish == "finish" {
+        // finish(self): on Err the writer is dropped inside (Drop runs try_finish once more)
+        let before = w.position();
+        let tapc = tap.clone();
+        let _ = tapc;
+        // position() is not observable after finish(self); take it from a try_finish-equivalent:
+        // finish = try_finish + take, so run try_finish, read position, then finish (a no-op
+        // when the first succeeded; on Err it is the Drop path's second try_finish)
+        let r1 = guarded(AssertUnwindSafe(|| w.try_finish()));
+        match r1 {
+            Outcome::Done(Ok(())) => {
+                run.pos = w.position();
+                run.end = match guarded(AssertUnwindSafe(|| w.finish().map(|_| ()))) {
+                    Outcome::Done(Ok(())) => "Ok".into(),
+                    Outcome::Done(Err(e)) => format!("second:Err:{}", errkind(&e)),
+                    Outcome::Panicked(_) => "Panic".into(),
+                };
+            }
+            Outcome::Done(Err(e)) => {
+                run.end = format!("Err:{}", errkind(&e));
+                let _ = guarded(AssertUnwindSafe(|| w.try_finish())); // what Drop does
+                run.pos = w.position();
+                let _ = w.into_inner();
+            }
+            Outcome::Panicked(_) => {
+                run.end = "Panic".into();
+                run.pos = before;
+                std::mem::forget(w);
+            }
+        }
+    } else {
+        run.end = match guarded(AssertUnwindSafe(|| w.flush())) {
+            Outcome::Done(Ok(())) => "Ok".into(),
+            Outcome::Done(Err(e)) => format!("Err:{}", errkind(&e)),
+            Outcome::Panicked(_) => "Panic".into(),
+        };
+        run.pos = w.position();
+        let _ = w.into_inner();
+    }
+    run.bytes = sink.bytes();
+    for c in tap.lock().unwrap().cdatas.iter() {
+        let d = inflate_raw(c);
+        let h = d.iter().fold(0u64, |h, &x| mix(h, u64::from(x)));
+        let e = (d.len(), h, c.len());
+        if !run.table.contains(&e) {
+            run.table.push(e);
+        }
+    }
+    run
+}
+
+/// BSIZE walk of the sink, exactly as WriterTell.sink_file does it: the (offset, size) of the
+/// frames, if they take up all of the bytes
+fn walk_frames(bytes: &[u8]) -> Option<Vec<(usize, usize)>> {
+    let (mut i, mut t) = (0usize, Vec::new());
+    loop {
+        let rem = bytes.len() - i;
+        if rem < 18 {
+            break;
+        }
+        let bs = u16::from_le_bytes([bytes[i + 16], bytes[i + 17]]) as usize + 1;
+        if bs < 26 || rem < bs {
+            break;
+        }
+        t.push((i, bs));
+        i += bs;
+    }
+    if i == bytes.len() { Some(t) } else { None }
+}
+
+fn run_wfs(c: &Case) -> Obs {
+    let level = c.u(0) as u8;
+    let finish = c.args[1].as_str();
+    let n = c.u(3) as usize;
+    let run = faulty_script(level, finish, &c.args[2], &c.args[4]);
+    let mut parts: Vec<String> = run.calls.iter().map(|(r, v, l)| format!("{r}@{v}#{l}")).collect();
+    parts.push(format!("|{} {} {}|", run.end, run.pos, run.bytes.len()));
+    let frames = if run.end == "Ok" { walk_frames(&run.bytes) } else { None };
+    let mut verdict: Result<(), (String, String)> = Ok(());
+    let mut fail = |tag: &str, d: String| {
+        if verdict.is_ok() {
+            verdict = Err((tag.to_string(), d));
+        }
+    };
+    if run.panicked || run.end == "Panic" {
+        fail("writer-panics-over-failing-sink", c.args[4].clone());
+    }
+    match &frames {
+        None => parts.push("-".into()),
+        Some(fr) => {
+            // the whole uncompressed stream of the file left behind
+            let whole = {
+                let mut r = bgzf::io::Reader::new(Cursor::new(run.bytes.clone()));
+                bounded_read_to_end(&mut r, READ_ALL_CAP, 65536)
+            };
+            let any_failed_tf = run.failed_tf_before.last().copied().unwrap_or(false);
+            if run.pos != run.bytes.len() as u64 && whole.is_ok() {
+                fail(
+                    if any_failed_tf { "failed-try-finish-advances-position" } else { "writer-position-differs-from-file-length" },
+                    format!("position()={} file={} bytes, every frame complete", run.pos, run.bytes.len()),
+                );
+            }
+            let mut prev_tail = usize::MAX;
+            for (i, v) in run.told.iter().enumerate() {
+                let Some(v) = *v else {
+                    parts.push("Panic=?>?".into());
+                    continue;
+                };
+                let cc = v.compressed() as usize;
+                let inside = fr.iter().any(|&(o, s)| o < cc && cc < o + s);
+                let tag = if run.failed_tf_before[i] { "failed-try-finish-advances-position" } else { "writer-told-position-does-not-name-next-byte-failing-sink" };
+                if inside {
+                    parts.push(format!("{}:{}=?>?", v.compressed(), v.uncompressed()));
+                    fail(tag, format!("sample {i} {}:{} lies inside a frame of the file left behind", v.compressed(), v.uncompressed()));
+                    continue;
+                }
+                let mut r = bgzf::io::Reader::new(Cursor::new(run.bytes.clone()));
+                let sk = match guarded(AssertUnwindSafe(|| r.seek(v))) {
+                    Outcome::Done(Ok(x)) => format!("{}:{}", x.compressed(), x.uncompressed()),
+                    Outcome::Done(Err(e)) => format!("Err:{}", errkind(&e)),
+                    Outcome::Panicked(_) => "Panic".into(),
+                };
+                let rd = bounded_read_to_end(&mut r, READ_ALL_CAP, n);
+                // the property on the implementation: what is read from a told position is a
+                // suffix of the whole stream, and the suffixes never grow along the history
+                match (&rd, &whole) {
+                    (Ok(t), Ok(wh)) => {
+                        if !wh.ends_with(t) || t.len() > prev_tail {
+                            fail(tag, format!("sample {i} {}:{} reads {} bytes, previous sample {}", v.compressed(), v.uncompressed(), t.len(), prev_tail));
+                        }
+                        if cc > run.bytes.len() {
+                            fail(tag, format!("sample {i} {}:{} beyond the file ({} bytes)", v.compressed(), v.uncompressed(), run.bytes.len()));
+                        }
+                        prev_tail = t.len();
+                    }
+                    _ => fail(tag, format!("sample {i}: read after seek {:?}", rd.as_ref().err())),
+                }
+                let rd = match rd {
+                    Ok(t) => canon_bytes(&t),
+                    Err(e) if e.starts_with("Panic") => "Panic".to_string(),
+                    Err(e) => e,
+                };
+                parts.push(format!("{}:{}={}>{}", v.compressed(), v.uncompressed(), sk, rd));
+            }
+        }
+    }
+    let nontrivial = run.calls.iter().any(|(r, _, _)| r.starts_with("Err")) && run.calls.len() >= 2;
+    Obs::ok(parts.join(" "), nontrivial).with_verdict(verdict)
+}
+
 fn run(c: &Case) -> Obs {
     match c.kind.as_str() {
+        "wfs" => run_wfs(c),
+        "hrs" => run_hrs(c),
         "hist" => run_hist(c),
         "wtell" | "wtm" => run_wtell(c),
         "vp" => run_vp(c),
@@ -1583,6 +1968,104 @@ fn generate(rng: &mut Rng, tier: &str, w: &mut CaseWriter) {
         let n = (*rng.pick(&[1usize, 7, 4096, 65535, 65536, 70000])).max(d.len() / 16 + 1);
         w.push("wtm", vec![level.to_string(), finish.into(), ops, n.to_string(), tbl]);
     }
+    // ---- writer histories over a FAILING destination, compared with the model (kind wfs)
+    let n_fs = if thorough { 1500 } else { 90 };
+    for i in 0..n_fs {
+        let level = if i % 3 == 0 { 0 } else { rng.below(10) };
+        let finish = if rng.chance(2, 3) { "finish" } else { "noeof" };
+        let k = rng.range(1, 7);
+        let big_ok = i % 6 == 0;
+        let mut ops = Vec::new();
+        let mut total = 0usize;
+        for _ in 0..k {
+            match rng.below(6) {
+                0 => ops.push("f".to_string()),
+                1 => ops.push("t".to_string()),
+                _ => {
+                    let n = match rng.below(10) {
+                        0 => 0,
+                        1 => 1,
+                        2 if big_ok => *rng.pick(&[65494usize, 65495, 65496, 65536]),
+                        3 if big_ok => rng.range(60000, 100000) as usize,
+                        _ => rng.range(1, 1500) as usize,
+                    };
+                    if total + n > 100_000 {
+                        continue;
+                    }
+                    total += n;
+                    let wr = if rng.chance(1, 3) { 'w' } else { 'W' };
+                    ops.push(format!("{wr}{}:{}:{}", n, rng.below(251), rng.range(1, 250)));
+                }
+            }
+        }
+        let ops = if ops.is_empty() { "_".to_string() } else { ops.join(",") };
+        // the inner write calls of a fault-free run: 14 per data frame, 1 per EOF block
+        let dry = faulty_script(level as u8, finish, &ops, "_");
+        let mut starts = vec![0usize];
+        for (_, sz) in walk_frames(&dry.bytes).unwrap_or_default() {
+            let l = *starts.last().unwrap();
+            starts.push(l + if sz == 28 { 1 } else { 14 });
+        }
+        let ncalls = *starts.last().unwrap();
+        let code = |rng: &mut Rng| if rng.chance(1, 8) { rng.below(3) } else { rng.range(3, 7) };
+        let mut ev: Vec<String> = Vec::new();
+        match i % 5 {
+            0 | 1 => {
+                // failures that accept nothing of the frame: at the first inner write of a frame / EOF block
+                let a = *rng.pick(&starts);
+                ev = vec!["F".to_string(); a];
+                ev.push(format!("E{}", code(rng)));
+                if rng.chance(1, 2) {
+                    let b = *rng.pick(&starts);
+                    if b > a {
+                        // the retry re-emits the frame from its first piece: one more call
+                        ev.extend(vec!["F".to_string(); b - a]);
+                        ev.push(format!("E{}", code(rng)));
+                    }
+                }
+            }
+            2 => {
+                // a failure in the middle of a frame (a partial frame stays in the file)
+                let a = *rng.pick(&starts) + rng.range(1, 13) as usize;
+                ev = vec!["F".to_string(); a.saturating_sub(1)];
+                ev.push(format!("S{}", rng.pick(&[1u64, 2, 10, 28, 70000])));
+                ev.push(format!("E{}", code(rng)));
+            }
+            3 => {
+                // a slow destination (one byte / a few bytes per call, Interrupted now and then) + one failure
+                let l = ncalls * 3 + 20;
+                let at = rng.below(l as u64) as usize;
+                for j in 0..l.min(400) {
+                    ev.push(if j == at {
+                        format!("E{}", code(rng))
+                    } else if rng.chance(1, 6) {
+                        "I".to_string()
+                    } else {
+                        format!("S{}", rng.pick(&[1u64, 1, 2, 3, 17, 28]))
+                    });
+                }
+            }
+            _ => {
+                for _ in 0..ncalls + 12 {
+                    ev.push(match rng.below(100) {
+                        0..=84 => "F".to_string(),
+                        85..=90 => format!("S{}", rng.pick(&[1u64, 2, 3, 10, 28, 100, 70000])),
+                        91..=94 => "I".to_string(),
+                        _ => format!("E{}", code(rng)),
+                    });
+                }
+            }
+        }
+        let faults = if ev.is_empty() { "_".to_string() } else { ev.join(",") };
+        let run = faulty_script(level as u8, finish, &ops, &faults);
+        let tbl = if run.table.is_empty() {
+            "_".to_string()
+        } else {
+            run.table.iter().map(|(i, h, c)| format!("{i}:{h}:{c}")).collect::<Vec<_>>().join(",")
+        };
+        let n = (*rng.pick(&[1usize, 7, 4096, 65535, 65536, 70000])).max(total / 16 + 1);
+        w.push("wfs", vec![level.to_string(), finish.into(), ops, n.to_string(), faults, tbl]);
+    }
     // ---- pack/unpack/order: boundary block offsets x in-block offsets
     let cs = [0u64, 1, 2, 65535, 65536, (1 << 32) - 1, 1 << 32, (1 << 47) + 12345, (1 << 48) - 2, (1 << 48) - 1, 1 << 48, (1 << 48) + 1, u64::MAX >> 1, u64::MAX];
     let us = [0u64, 1, 2, 255, 256, 32767, 32768, 65534, 65535];
@@ -1827,6 +2310,40 @@ fn generate(rng: &mut Rng, tier: &str, w: &mut CaseWriter) {
         w.push("hread", vec![hex(&bytes), "7,4,4,4".into()]);
         w.push("hread", vec![hex(&bytes), "3,100,4,4".into()]);
     }
+    // ---- histories over a BGZF file stored (level 0) inside a frame: seeks onto the inner frames
+    // (mid-frame offsets of the outer file that parse as frames), reads after them, seeks back
+    let n_nest = if thorough { 1200 } else { 80 };
+    for _ in 0..n_nest {
+        let d1 = pattern(rng.range(1, 200) as usize, rng.below(251), rng.range(1, 250));
+        let d2 = pattern(rng.range(0, 80) as usize, rng.below(251), rng.range(1, 250));
+        let f1 = if rng.chance(1, 2) { writer_frame(&d1, rng.below(10) as u8) } else { hand_frame(&d1, rng.below(10) as u32) };
+        let f2 = hand_frame(&d2, rng.below(10) as u32);
+        let mut inner = f1.clone();
+        inner.extend_from_slice(&f2);
+        if rng.chance(1, 2) {
+            inner.extend_from_slice(&EOF_MARKER);
+        }
+        let lead = if rng.chance(1, 2) { writer_frame(&pattern(rng.range(1, 60) as usize, 7, 3), 6) } else { Vec::new() };
+        let mut bytes = lead.clone();
+        let outer = hand_frame(&inner, 0);
+        bytes.extend_from_slice(&outer);
+        if rng.chance(2, 3) {
+            bytes.extend_from_slice(&EOF_MARKER);
+        }
+        let base = lead.len() as u64 + 18 + 5;
+        let targets = [base, base + f1.len() as u64, base + (f1.len() + f2.len()) as u64, 0, lead.len() as u64, (lead.len() + outer.len()) as u64, base + 1, base - 1];
+        let hops: Vec<String> = (0..rng.range(3, 11))
+            .map(|_| {
+                if rng.chance(2, 5) {
+                    let c = if rng.chance(5, 6) { *rng.pick(&targets) } else { rng.below(bytes.len() as u64 + 10) };
+                    format!("k{}:{}", c, rng.pick(&[0u16, 0, 1, 5, 41, 300, 65535]))
+                } else {
+                    format!("r{}", rng.pick(&[1usize, 3, 7, 100, 4096, 65535]))
+                }
+            })
+            .collect();
+        w.push("hrs", vec![hex(&bytes), hops.join(",")]);
+    }
     let n_hr = if thorough { 4000 } else { 240 };
     for _ in 0..n_hr {
         let nf = rng.range(1, 4) as usize;
@@ -1870,6 +2387,28 @@ fn generate(rng: &mut Rng, tier: &str, w: &mut CaseWriter) {
         }
         let ns: Vec<String> = (0..rng.range(3, 10)).map(|_| rng.pick(&[1usize, 3, 7, 100, 4096, 65535]).to_string()).collect();
         w.push("hread", vec![hex(&bytes), ns.join(",")]);
+        // the same bytes under a history of reads AND seeks (kind hrs): targets = the frame starts
+        // before the damage, +-small, anywhere, near / beyond the end
+        let mut bounds = vec![0usize];
+        for f in &frames {
+            bounds.push(bounds.last().unwrap() + f.len());
+        }
+        let hops: Vec<String> = (0..rng.range(3, 10))
+            .map(|_| {
+                if rng.chance(2, 5) {
+                    let c = match rng.below(6) {
+                        0 | 1 | 2 => *rng.pick(&bounds) as u64,
+                        3 => (*rng.pick(&bounds) as u64 + rng.below(20)).saturating_sub(rng.below(20)),
+                        4 => rng.below(bytes.len() as u64 + 30),
+                        _ => (bytes.len() as u64 + rng.below(40)).saturating_sub(30),
+                    };
+                    format!("k{}:{}", c, rng.pick(&[0u16, 0, 1, 5, 41, 300, 65535]))
+                } else {
+                    format!("r{}", rng.pick(&[1usize, 3, 7, 100, 4096, 65535]))
+                }
+            })
+            .collect();
+        w.push("hrs", vec![hex(&bytes), hops.join(",")]);
     }
 }
 
